@@ -355,7 +355,7 @@ def write_evidence(mod, tier, seed, stats: Stats, wall, extra=None):
         "property_id": mod.ID,
         "tier": tier,
         "seed": int(seed),
-        "level": "exploration",
+        "level": getattr(mod, "LEVEL", "exploration"),
         "coverage": cov,
         "assumptions": list(mod.ASSUMPTIONS),
         "wall_s": round(wall, 2),
